@@ -312,7 +312,11 @@ func (e *SignatureAlgorithmExtension) CheckImplemented() error {
 	for _, algs := range e.getStructuredAlgorithms() {
 		found := false
 		for _, supported := range supportedSKXSignatureAlgorithms {
-			if algs.Hash == supported.Hash && algs.Signature == supported.Signature {
+			supportedSignature := supported.Signature
+			if supportedSignature == signatureECDSA {
+				supportedSignature = 3 // ecdsa(3) on the wire, RFC 5246, Section 7.4.1.4.1
+			}
+			if algs.Hash == supported.Hash && algs.Signature == supportedSignature {
 				found = true
 				break
 			}
